@@ -11,6 +11,7 @@ import (
 	"sync"
 
 	"verif/harness/addrfam"
+	"verif/harness/concfam"
 	"verif/harness/linefam"
 	"verif/harness/mimefam"
 	"verif/harness/pipeconn"
@@ -168,6 +169,17 @@ func runOne(family string, j job, seed int64) result {
 			s.ID = fmt.Sprintf("X%06d", j.idx)
 		}
 		rn := &saslfam.Runner{Sc: s, Rec: rec.New(), T: j.idx, TLSDir: session.TLSDir}
+		rn.Run()
+		return result{idx: j.idx, lines: rn.Rec.Lines(), infra: rn.Infra}
+	case "conc":
+		var s concfam.Scenario
+		if err := json.Unmarshal(j.line, &s); err != nil {
+			return result{idx: j.idx, infra: err}
+		}
+		if s.ID == "" {
+			s.ID = fmt.Sprintf("K%06d", j.idx)
+		}
+		rn := &concfam.Runner{Sc: s, Rec: rec.New(), T: j.idx, Seed: seed}
 		rn.Run()
 		return result{idx: j.idx, lines: rn.Rec.Lines(), infra: rn.Infra}
 	case "mime":
